@@ -20,7 +20,7 @@ class C08(ProgramProperty):
             "only the delimiter, delimiter first / last, unknown prefix, known CURIE, known URI), each sent through "
             "the 14 listed functions in all four strict x passthrough combinations (functions without a "
             "passthrough parameter in both strict modes). Non-trivial = some function returns None by default "
-            "on some input (so the three modes actually differ).")
+            "on some input (so the three modes actually differ). Converters are built directly or through histories with warm-up queries, merges and a rejected call.")
 
     def budget(self, tier):
         return 1500 if tier == "quick" else 40000
